@@ -31,7 +31,8 @@ def strategy(tier, unit):
         "pixel_first": st.one_of(st.none(), st.tuples(S.fl(-2000, 2000), S.fl(-2000, 2000)).map(list)), "tilt": st.tuples(z, z, z).map(list),
         "L": S.logfl(10, 1000), "py": S.logfl(0.01, 0.5), "pz": S.logfl(0.01, 0.5),
         "y0": st.one_of(S.fl(-3000, 3000), st.integers(-3000, 3000)), "z0": st.one_of(S.fl(-3000, 3000), st.integers(0, 3000)),
-        "t": st.tuples(off, off, off).map(list), "wl": S.fl(0.1, 2.0), "intL": st.booleans()})
+        # grain position: floats, or whole numbers typed as Python ints (0, 0, 0 / 1, -2, 1)
+        "t": st.one_of(st.tuples(off, off, off), st.tuples(off, off, off), st.tuples(st.integers(-2, 2), st.integers(-2, 2), st.integers(-2, 2))).map(list), "wl": S.fl(0.1, 2.0), "intL": st.booleans()})
 
 
 def check(case, ctx):
@@ -52,6 +53,9 @@ def check(case, ctx):
     ctx.keep("det_coor2", D.det_coor2(0.2, 0.4, L, py, pz, y0, z0, R, 0.1, -0.2, 0.3))
     ctx.keep("detector_to_lab", D.detector_to_lab(10.0, 20.0, L, py, pz, y0, z0, R))
     t = np.array(case["t"], float) + 0.0
+    ta = [x if isinstance(x, int) else float(x) + 0.0 for x in case["t"]]      # as handed to the library (ints stay ints)
+    if all(isinstance(x, int) for x in ta):
+        ctx.event("integer-typed-grain-position")
     v = np.array([math.cos(tth), -math.sin(tth) * math.sin(eta), math.sin(tth) * math.cos(eta)])
     Gt = O.ro((2 * math.pi / wl) * (v - np.array([1.0, 0, 0])))
     pf = case.get("pixel_first")
@@ -70,19 +74,19 @@ def check(case, ctx):
             v = np.array([math.cos(tth), -math.sin(tth) * math.sin(eta), math.sin(tth) * math.cos(eta)])
             Gt = O.ro((2 * math.pi / wl) * (v - np.array([1.0, 0, 0])))
             ctx.event("pixel-first construction")
-            pc = np.asarray(D.det_coor2(tth, eta, L, py, pz, y0, z0, R, t[0], t[1], t[2]), float)
+            pc = np.asarray(D.det_coor2(tth, eta, L, py, pz, y0, z0, R, ta[0], ta[1], ta[2]), float)
             ctx.near("pixel-first/det_coor2", float(np.max(np.abs(pc - np.array(pf)) / (1 + np.abs(np.array(pf))))), 1e-7, "pixel-first/det_coor2",
                      "det_coor2 of the ray through pixel %r returns %r" % (pf, pc.tolist()))
     ctx.nontrivial(max(abs(tx), abs(ty), abs(tz)) > 0.05 and O.maxabs(t) > 0.1)
     ctx.event("tilted" if max(abs(tx), abs(ty), abs(tz)) > 0.05 else "flat")
-    p1 = np.asarray(D.det_coor(Gt, math.cos(tth), wl, L, py, pz, y0, z0, R, t[0], t[1], t[2]), float)
-    p2 = np.asarray(D.det_coor2(tth, eta, L, py, pz, y0, z0, R, t[0], t[1], t[2]), float)
+    p1 = np.asarray(D.det_coor(Gt, math.cos(tth), wl, L, py, pz, y0, z0, R, ta[0], ta[1], ta[2]), float)
+    p2 = np.asarray(D.det_coor2(tth, eta, L, py, pz, y0, z0, R, ta[0], ta[1], ta[2]), float)
     if p1.shape != (2,) or p2.shape != (2,):
         ctx.fail("shape", "det_coor shapes %r %r" % (p1.shape, p2.shape))
         return
     ctx.near("det_coor=det_coor2", float(np.max(np.abs(p1 - p2) / (1 + np.abs(p2)))), 1e-7, "det_coor-vs-det_coor2",
              "det_coor %r != det_coor2 %r for the same ray" % (p1.tolist(), p2.tolist()))
-    dv = np.asarray(D.det_v(Gt, math.cos(tth), wl, L, py, pz, y0, z0, R, t[0], t[1], t[2]), float)
+    dv = np.asarray(D.det_v(Gt, math.cos(tth), wl, L, py, pz, y0, z0, R, ta[0], ta[1], ta[2]), float)
     ctx.near("det_v", O.maxabs(dv - v), 1e-12, "det_v", "det_v %r != scattered direction %r" % (dv.tolist(), v.tolist()))
     # independent intersection of the ray t + s v with the detector plane
     nrm = R[:, 0]
